@@ -116,6 +116,12 @@ class EngineC13:
                 x, fill = self._gen_data(g, g.choice(["count", "real"]), sparse)
                 for k in range(sw.randint(3, 8)):
                     steps.append(self._gen_sample_step(g, x, sparse, fill, st.u32("np", len(steps))))
+                if sparse and 0 < int(np.count_nonzero(x)) < x.size:
+                    stp = self._gen_sample_step(g, x, sparse, fill, st.u32("np", len(steps)))
+                    stp["op"] = "sample_edit"
+                    stp["pick"] = g.randrange(10**6)
+                    stp["osr"] = 40.0 if "stratified_zero_shortfall" in self.steer else 1.1
+                    steps.append(stp)
         elif kind == "stochastic":
             opt = weighted(sw, [("SGD", 3), ("Adam", 4), ("Adagrad", 3)])
             res.init["optimizer"] = {
@@ -336,6 +342,8 @@ class EngineC13:
         res.bump("op:" + op)
         if op == "sample":
             v = self._exec_sample(w, step, i, res)
+        elif op == "sample_edit":
+            v = self._exec_sample_edit(w, step, i, res)
         elif op == "solve":
             if w.get("optimizer") is None:
                 res.bump("skipped")
@@ -454,6 +462,48 @@ class EngineC13:
             if nzeros == 0:
                 res.bump("probe:full_sparse_tensor")
         return v
+
+    def _exec_sample_edit(self, w, step, i, res) -> Optional[Violation]:
+        """History on the data object: sampler A on the data, one nonzero moved IN PLACE (same object, same shape,
+        same number of nonzeros), then a NEW sampler B on the edited data; B must describe the data as they are."""
+        S = self.samplers
+        x, data = self._make_data(step)
+        nnz = int(np.count_nonzero(x))
+        if not step["sparse"] or nnz == 0 or nnz == x.size:
+            res.bump("skipped")
+            return None
+        V = lambda oracle, detail: Violation("C13", oracle, "sample_edit", i, detail)  # noqa: E731
+        n_nz = max(1, min(step["n_nz"], nnz + 2))
+        n_z = max(1, min(step["n_z"] or 1, 4))
+        cnt = S.StratifiedCount(num_zeros=n_z, num_nonzeros=n_nz)
+        with World(np_seed=step["np_seed"]):
+            try:
+                a = S.GCPSampler(data, function_sampler=S.Samplers.STRATIFIED, function_samples=cnt, gradient_sampler=S.Samplers.STRATIFIED, gradient_samples=cnt, over_sample_rate=step.get("osr", 1.1))
+                a.function_sample(data)
+                nzs = np.argwhere(x != 0)
+                zs = np.argwhere(x == 0)
+                src = tuple(int(v) for v in nzs[step["pick"] % nzs.shape[0]])
+                dst = tuple(int(v) for v in zs[(step["pick"] // 11) % zs.shape[0]])
+                k = int(np.where((np.asarray(data.subs) == np.array(src)).all(axis=1))[0][0])
+                data.subs[k, :] = np.array(dst)
+                x2 = x.copy()
+                x2[dst] = x2[src]
+                x2[src] = 0.0
+                b = S.GCPSampler(data, function_sampler=S.Samplers.STRATIFIED, function_samples=cnt, gradient_sampler=S.Samplers.STRATIFIED, gradient_samples=cnt, over_sample_rate=step.get("osr", 1.1))
+                outs = [("function_after_edit", b.function_sample(data)), ("gradient_after_edit", b.gradient_sample(data))]
+            except Exception as e:  # noqa: BLE001
+                return V("sampler_returns_on_admissible_request", f"sampling around an in-place edit raised {type(e).__name__}: {e}")
+        res.bump("fault:data_edited_in_place_between_samplers")
+        for label, o in outs:
+            v = self._judge_triple(V, x2, o, "stratified", n_nz, nnz, x.size - nnz, label)
+            if self._shortfalls:
+                res.bump("probe:known_stratified_zero_shortfall", self._shortfalls)
+                self._shortfalls = 0
+            if v is not None:
+                return v
+            res.bump("samples_checked")
+        res.events.append([i, "sample_edit", "ok"])
+        return None
 
     def _judge_triple(self, V, x, out, kind, split, nnz, nzeros, label):
         subs, vals, wgts = out
